@@ -36,6 +36,7 @@
 // the real moc output of the build (signal bodies, staticMetaObject, qt_metacast) - generated files stay in /repo/_build
 #include "QXmppQt5_autogen/ORNZQ2F6DW/moc_QXmppIncomingClient.cpp"
 #include "QXmppQt5_autogen/ORNZQ2F6DW/moc_QXmppPasswordChecker.cpp"
+#include "QXmppQt5_autogen/CZ4SVKUTXB/moc_QXmppSasl_p.cpp"
 
 #include "c16_warm.h"
 
@@ -46,8 +47,8 @@ unsigned vp_c16_sent_kind(unsigned i);
 unsigned vp_c16_ndisconnect();
 unsigned vp_c16_ntls();                         // startServerEncryption() calls
 // signal snapshots taken at emission time (QMetaObject::activate hook)
-unsigned vp_c16_nsig();
-void vp_c16_sig_element(unsigned i, QDomElement *out);   // argv[1] of emission i read as a QDomElement (elementReceived)
+unsigned vp_c16_nsig(unsigned which);             // emissions of elementReceived (0) / connected (1) / disconnected (2) / any other signal (3)
+void vp_c16_sig_element(QDomElement *out);        // element of the last elementReceived emission (null if none)
 // class registry for qobject_cast
 void vp_c16_set_class(const QObject *o, const QMetaObject *mo);
 // password checker log (filled by the harness' FakeChecker)
@@ -92,7 +93,7 @@ struct World {
     QXmppIncomingClientPrivate *d;
     FakeChecker checker;
     QString jid0, resource0, domain;
-    // jidMode: 0 = empty (unauthenticated), 1 = arbitrary non-empty string of <= 4 units
+    // jidMode: 0 = empty (unauthenticated), 1 = arbitrary non-empty string of <= 4 units, 2 = arbitrary string of 0..4 units
     World(int jidMode, bool withChecker = true)
     {
         vpC16Warm();
@@ -103,26 +104,16 @@ struct World {
         d->idleTimer = timer.p();
         d->socket.m_socket = ssl.p();
         domain = vpSymString(2);
+        for (int i = 0; i < 2; i++) if (i < domain.size()) vp_assume(domain.at(i).unicode() < 0x80);   // UTF-8 codec is Qt's (identity on ASCII)
         d->domain = domain;
         if (jidMode == 1) jid0 = vpSymStringNonEmpty(4);
+        if (jidMode == 2) jid0 = vpSymString(4);
         d->jid = jid0;
         resource0 = vpSymString(2);
         d->resource = resource0;
         if (withChecker) d->passwordChecker = &checker;
     }
-    unsigned count(int sig) const
-    {
-        unsigned n = 0;
-        for (unsigned i = 0; i < 6; i++)
-            if (i < vp_sig_count() && vp_sig_sender(i) == q && vp_sig_meta(i) == &QXmppIncomingClient::staticMetaObject && vp_sig_index(i) == sig) n++;
-        return n;
-    }
-    // the element handed to routing (first elementReceived emission)
-    QDomElement routed() const
-    {
-        QDomElement e;
-        for (unsigned i = 0; i < 6; i++)
-            if (e.isNull() && i < vp_sig_count() && vp_sig_meta(i) == &QXmppIncomingClient::staticMetaObject && vp_sig_index(i) == SIG_ELEMENT) vp_c16_sig_element(i, &e);
-        return e;
-    }
+    unsigned count(int sig) const { return vp_c16_nsig(sig); }
+    // the element handed to routing (last elementReceived emission)
+    QDomElement routed() const { QDomElement e; vp_c16_sig_element(&e); return e; }
 };
